@@ -132,6 +132,16 @@ func newStore(t *testing.T, chain *vh.Chain, tail, head int) (*store.Store[*vh.H
 		t.Fatal(err)
 	}
 	if tail > 1 {
+		if (tail+head)%2 == 1 {
+			// every other store is pruned the way a long-running node is: its caches are warm (everything was read
+			// before) and the deletion takes the parallel path
+			for h := 1; h <= head; h++ {
+				_, _ = st.GetByHeight(bg, uint64(h))
+				_, _ = st.Get(bg, chain.At(uint64(h)).Hash())
+			}
+			old := store.VerifSetDeleteParallelThreshold(2)
+			defer store.VerifSetDeleteParallelThreshold(old)
+		}
 		if err := st.DeleteRange(bg, 1, uint64(tail)); err != nil {
 			t.Fatal(err)
 		}
